@@ -1,4 +1,5 @@
 """C12 — ascii_case_insensitive folds ASCII letters only, only for the variants it covers."""
+import copy
 from vlib.defs import Item, Variant, Field, EM, ser, tos, aci, DISABLED
 from vlib.run import Corpus
 from vlib import gen as G
@@ -51,6 +52,18 @@ def systematic():
             fl = {"variant": [aci(True, explicit=(j % 2 == 0))], "enum": [], "none": [], "variant-false": [aci(False)]}[mode]
             vs.append(Variant("Q%d" % j, "unit", [], [ser(a + "q%d" % j), ser(b + "q%d" % j)] + fl))
         items.append(Item("E", vs, metas=[EM("aci")] if mode == "enum" else []))
+    # the phf-backed parser folds ASCII only as well: an EARLIER case-insensitive spelling and a LATER spelling equal to it under
+    # Unicode case mapping (but not under ASCII folding) are two different keys — in every flag combination and both orders
+    for a_first in (True, False):
+        for fa in (True, False):
+            for fb in (True, False):
+                vs = []
+                for j, (a, b) in enumerate(pairs):
+                    x, y = (a, b) if a_first else (b, a)
+                    vs.append(Variant("U%da" % j, "unit", [], [ser(x + "u%d" % j)] + ([aci(True, explicit=False)] if fa else [])))
+                    vs.append(Variant("U%db" % j, "unit", [], [ser(y + "u%d" % j)] + ([aci(True, explicit=True)] if fb else [])))
+                items.append(Item("E", vs, metas=[EM("phf")]))
+                items.append(Item("E", [copy.deepcopy(v) for v in vs]))
     # identifiers as spellings, with serialize_all
     for eflag in (False, True):
         for sty in ("snake_case", "SCREAMING-KEBAB-CASE", None):
@@ -62,7 +75,7 @@ def systematic():
 
 
 def crate_configs(tier):
-    return [{"name": ID.lower()}, {"name": ID.lower() + "probe", "kind": "genprobe"}]
+    return [{"name": ID.lower(), "features": ("derive", "phf")}, {"name": ID.lower() + "probe", "kind": "genprobe"}]
 
 
 def query_in_config(cfg, kind, args):
